@@ -101,6 +101,28 @@ theorem decodeRune_ascii (a : Array UInt8) (i : Nat) :
   · exact Or.inl rfl
 
 
+/-! ### items whose value the parser slices -/
+
+/-- `tok.val[1:]` is taken of these -/
+def sliced1 (t : ItemType) : Bool := t == .tDollarIdent || t == .tDotIdent || t == .tDotIndex
+/-- `tok.val[2:]` is taken of these -/
+def sliced2 (t : ItemType) : Bool := t == .tQuestionDotIdent || t == .tQuestionDotIndex
+
+def itemOK (it : Item) : Bool :=
+  (!sliced1 it.typ || decide (1 ≤ it.val.length)) && (!sliced2 it.typ || decide (2 ≤ it.val.length))
+
+/-- number of items sent so far whose value is too short for the parser's slices -/
+def Lexer.bad (l : Lexer) : Nat := (l.items.toList.filter (fun it => !itemOK it)).length
+
+/-- emitting a token of type `t` with `n` bytes is fine -/
+def emitOK (t : ItemType) (n : Int) : Prop := (sliced1 t = true → 1 ≤ n) ∧ (sliced2 t = true → 2 ≤ n)
+
+theorem emitOK_mono {t : ItemType} {a b : Int} (h : emitOK t a) (hab : a ≤ b) : emitOK t b :=
+  ⟨fun h1 => by have := h.1 h1; omega, fun h2 => by have := h.2 h2; omega⟩
+
+theorem emitOK_safe {t : ItemType} {n : Int} (h1 : sliced1 t = false) (h2 : sliced2 t = false) : emitOK t n :=
+  ⟨fun h => by rw [h1] at h; exact absurd h (by simp), fun h => by rw [h2] at h; exact absurd h (by simp)⟩
+
 @[simp] theorem backup_pos (l : Lexer) : l.backup.pos = l.pos - l.width := rfl
 @[simp] theorem backup_start (l : Lexer) : l.backup.start = l.start := rfl
 @[simp] theorem backup_len (l : Lexer) : l.backup.len = l.len := rfl
@@ -116,6 +138,9 @@ theorem decodeRune_ascii (a : Array UInt8) (i : Nat) :
 @[simp] theorem backup_mp (l : Lexer) : l.backup.mp = l.mp := rfl
 @[simp] theorem ignore_mp (l : Lexer) : l.ignore.mp = l.mp := rfl
 @[simp] theorem addPos_mp (l : Lexer) (d : Int) : (l.addPos d).mp = l.mp := rfl
+@[simp] theorem backup_bad (l : Lexer) : l.backup.bad = l.bad := rfl
+@[simp] theorem ignore_bad (l : Lexer) : l.ignore.bad = l.bad := rfl
+@[simp] theorem addPos_bad (l : Lexer) (d : Int) : (l.addPos d).bad = l.bad := rfl
 @[simp] theorem backup_items (l : Lexer) : l.backup.items = l.items := rfl
 @[simp] theorem ignore_items (l : Lexer) : l.ignore.items = l.items := rfl
 @[simp] theorem addPos_items (l : Lexer) (d : Int) : (l.addPos d).items = l.items := rfl
@@ -131,6 +156,14 @@ theorem mp_push' (l : Lexer) (it : Item) :
     Lexer.mp { l with items := l.items.push it } = max l.mp it.pos := by
   simp [Lexer.mp]
 
+theorem bad_push (l : Lexer) (it : Item) (li : Item) (st : Int) (h : itemOK it = true) :
+    Lexer.bad { l with lastEmit := li, items := l.items.push it, start := st } = l.bad := by
+  simp [Lexer.bad, List.filter_append, h]
+
+theorem bad_push' (l : Lexer) (it : Item) (h : itemOK it = true) :
+    Lexer.bad { l with items := l.items.push it } = l.bad := by
+  simp [Lexer.bad, List.filter_append, h]
+
 /-- the effect of one `next` on the position: nothing at eof, one rune forward otherwise -/
 def NextFacts (l : Lexer) (r : Int) (l' : Lexer) : Prop :=
   (l.len ≤ l.pos ∧ r = -1 ∧ l'.pos = l.pos ∧ l'.width = 0) ∨
@@ -138,18 +171,18 @@ def NextFacts (l : Lexer) (r : Int) (l' : Lexer) : Prop :=
     (128 ≤ r ∨ l'.width = 1))
 
 theorem next_sat {l : Lexer} {Q : Int × Lexer → Prop} (h0 : 0 ≤ l.pos)
-    (hq : ∀ r l', (l'.len = l.len ∧ l'.mp = l.mp ∧ l'.tagStart = l.tagStart) → l'.start = l.start → NextFacts l r l' → Q (r, l')) :
+    (hq : ∀ r l', (l'.len = l.len ∧ l'.mp = l.mp ∧ l'.tagStart = l.tagStart ∧ l'.bad = l.bad) → l'.start = l.start → NextFacts l r l' → Q (r, l')) :
     Sat l.next Q := by
   unfold Lexer.next
   split
-  · exact ⟨_, rfl, hq _ _ ⟨rfl, rfl, rfl⟩ rfl (Or.inl ⟨by assumption, rfl, rfl, rfl⟩)⟩
+  · exact ⟨_, rfl, hq _ _ ⟨rfl, rfl, rfl, rfl⟩ rfl (Or.inl ⟨by assumption, rfl, rfl, rfl⟩)⟩
   · rename_i h1
     rw [if_neg (by omega)]
     simp only [Lexer.len] at h1
     have hlt : l.pos.toNat < l.input.size := by omega
     have hw := decodeRune_width l.input l.pos.toNat hlt
     have ha := decodeRune_ascii l.input l.pos.toNat
-    refine ⟨_, rfl, hq _ _ ⟨rfl, rfl, rfl⟩ rfl (Or.inr ⟨?_, ?_, ?_, ?_, ?_, ?_⟩)⟩
+    refine ⟨_, rfl, hq _ _ ⟨rfl, rfl, rfl, rfl⟩ rfl (Or.inr ⟨?_, ?_, ?_, ?_, ?_, ?_⟩)⟩
     · simp only [Lexer.len]; omega
     · exact Int.natCast_nonneg _
     · show (1 : Int) ≤ ((decodeRune l.input l.pos.toNat).2 : Int); omega
@@ -164,7 +197,7 @@ theorem next_isSome {l : Lexer} (h0 : 0 ≤ l.pos) : ∃ r l', l.next = some (r,
   exact ⟨r, l', h⟩
 
 theorem peek_sat {l : Lexer} {Q : Int × Lexer → Prop} (h0 : 0 ≤ l.pos)
-    (hq : ∀ r l', (l'.len = l.len ∧ l'.mp = l.mp ∧ l'.tagStart = l.tagStart) → l'.start = l.start → l'.pos = l.pos →
+    (hq : ∀ r l', (l'.len = l.len ∧ l'.mp = l.mp ∧ l'.tagStart = l.tagStart ∧ l'.bad = l.bad) → l'.start = l.start → l'.pos = l.pos →
       ((l.len ≤ l.pos ∧ r = -1 ∧ l'.width = 0) ∨
        (l.pos < l.len ∧ 0 ≤ r ∧ 1 ≤ l'.width ∧ l.pos + l'.width ≤ l.len ∧ (128 ≤ r ∨ l'.width = 1))) →
       Q (r, l')) :
@@ -184,8 +217,8 @@ theorem peek_sat {l : Lexer} {Q : Int × Lexer → Prop} (h0 : 0 ≤ l.pos)
     · right; omega
 
 theorem emit_sat {l : Lexer} {t : ItemType} {Q : Lexer → Prop}
-    (h0 : 0 ≤ l.start) (h1 : l.start ≤ l.pos) (h2 : l.pos ≤ l.len)
-    (hq : ∀ l', (l'.len = l.len ∧ l.mp ≤ l'.mp ∧ ((l'.mp : Int) = l.mp ∨ (l'.mp : Int) = l.pos) ∧ l'.tagStart = l.tagStart) →
+    (h0 : 0 ≤ l.start) (h1 : l.start ≤ l.pos) (h2 : l.pos ≤ l.len) (hok : emitOK t (l.pos - l.start))
+    (hq : ∀ l', (l'.len = l.len ∧ l.mp ≤ l'.mp ∧ ((l'.mp : Int) = l.mp ∨ (l'.mp : Int) = l.pos) ∧ l'.tagStart = l.tagStart ∧ l'.bad = l.bad) →
       l'.pos = l.pos → l'.start = l.pos → l'.width = l.width → Q l') :
     Sat (l.emit t) Q := by
   unfold Lexer.emit
@@ -193,9 +226,19 @@ theorem emit_sat {l : Lexer} {t : ItemType} {Q : Lexer → Prop}
   unfold sliceOf
   simp only [Lexer.len] at h2
   rw [if_pos ⟨h0, h1, h2⟩]
-  refine ⟨_, rfl, hq _ ⟨rfl, ?_, ?_, rfl⟩ rfl rfl rfl⟩
+  refine ⟨_, rfl, hq _ ⟨rfl, ?_, ?_, rfl, ?_⟩ rfl rfl rfl⟩
   · simp only [mp_push]; omega
   · simp only [mp_push]; omega
+  · apply bad_push
+    simp only [itemOK, Array.length_toList, Array.size_extract, Bool.and_eq_true, Bool.or_eq_true,
+      Bool.not_eq_true', decide_eq_true_eq]
+    constructor
+    · by_cases hs1 : sliced1 t = true
+      · right; have := hok.1 hs1; omega
+      · left; simpa using hs1
+    · by_cases hs2 : sliced2 t = true
+      · right; have := hok.2 hs2; omega
+      · left; simpa using hs2
 
 /-- the facts `scanWhile` establishes about the lexer it returns -/
 def ScanFacts (l : Lexer) (r : Int) (l' : Lexer) : Prop :=
@@ -205,7 +248,7 @@ def ScanFacts (l : Lexer) (r : Int) (l' : Lexer) : Prop :=
 
 theorem scanWhile_sat (p : Int → Bool) (hp : p eof = false) (l : Lexer) {Q : Int × Lexer → Prop}
     (h0 : 0 ≤ l.pos) (h1 : l.pos ≤ l.len)
-    (hq : ∀ r l', (l'.len = l.len ∧ l'.mp = l.mp ∧ l'.tagStart = l.tagStart) → l'.start = l.start → p r = false → ScanFacts l r l' → Q (r, l')) :
+    (hq : ∀ r l', (l'.len = l.len ∧ l'.mp = l.mp ∧ l'.tagStart = l.tagStart ∧ l'.bad = l.bad) → l'.start = l.start → p r = false → ScanFacts l r l' → Q (r, l')) :
     Sat (scanWhile p hp l) Q := by
   induction l using scanWhile.induct p hp with
   | case1 l hn =>
@@ -220,7 +263,7 @@ theorem scanWhile_sat (p : Int → Bool) (hp : p eof = false) (l : Lexer) {Q : I
       simp only [Option.some.injEq, Prod.mk.injEq] at heq
       obtain ⟨rfl, rfl⟩ := heq
       simp only [hr, dite_true]
-      obtain ⟨_, hn', hl, hs, hf⟩ := next_sat (Q := fun x => (x.2.len = l.len ∧ x.2.mp = l.mp ∧ x.2.tagStart = l.tagStart) ∧ x.2.start = l.start ∧ NextFacts l x.1 x.2) h0
+      obtain ⟨_, hn', hl, hs, hf⟩ := next_sat (Q := fun x => (x.2.len = l.len ∧ x.2.mp = l.mp ∧ x.2.tagStart = l.tagStart ∧ x.2.bad = l.bad) ∧ x.2.start = l.start ∧ NextFacts l x.1 x.2) h0
         (fun _ _ a b c => ⟨a, b, c⟩)
       rw [hn] at hn'
       simp only [Option.some.injEq] at hn'
@@ -231,7 +274,7 @@ theorem scanWhile_sat (p : Int → Bool) (hp : p eof = false) (l : Lexer) {Q : I
       unfold NextFacts at hf
       apply ih (by omega) (by omega)
       intro r l' hl' hs' hpr hsf
-      apply hq r l' ⟨hl'.1.trans hl.1, hl'.2.1.trans hl.2.1, hl'.2.2.trans hl.2.2⟩ (hs'.trans hs) hpr
+      apply hq r l' ⟨hl'.1.trans hl.1, hl'.2.1.trans hl.2.1, hl'.2.2.1.trans hl.2.2.1, hl'.2.2.2.trans hl.2.2.2⟩ (hs'.trans hs) hpr
       unfold ScanFacts at hsf ⊢
       rw [hl.1] at hsf
       omega
@@ -244,7 +287,7 @@ theorem scanWhile_sat (p : Int → Bool) (hp : p eof = false) (l : Lexer) {Q : I
       simp only [Option.some.injEq, Prod.mk.injEq] at heq
       obtain ⟨rfl, rfl⟩ := heq
       simp only [hr, dite_false]
-      obtain ⟨_, hn', hl, hs, hf⟩ := next_sat (Q := fun x => (x.2.len = l.len ∧ x.2.mp = l.mp ∧ x.2.tagStart = l.tagStart) ∧ x.2.start = l.start ∧ NextFacts l x.1 x.2) h0
+      obtain ⟨_, hn', hl, hs, hf⟩ := next_sat (Q := fun x => (x.2.len = l.len ∧ x.2.mp = l.mp ∧ x.2.tagStart = l.tagStart ∧ x.2.bad = l.bad) ∧ x.2.start = l.start ∧ NextFacts l x.1 x.2) h0
         (fun _ _ a b c => ⟨a, b, c⟩)
       rw [hn] at hn'
       simp only [Option.some.injEq] at hn'
@@ -257,7 +300,7 @@ theorem scanWhile_sat (p : Int → Bool) (hp : p eof = false) (l : Lexer) {Q : I
 
 
 theorem accept_sat {l : Lexer} {valid : List Int} {Q : Bool × Lexer → Prop} (h0 : 0 ≤ l.pos) (h1 : l.pos ≤ l.len)
-    (hq : ∀ b l', (l'.len = l.len ∧ l'.mp = l.mp ∧ l'.tagStart = l.tagStart) → l'.start = l.start → l.pos ≤ l'.pos →
+    (hq : ∀ b l', (l'.len = l.len ∧ l'.mp = l.mp ∧ l'.tagStart = l.tagStart ∧ l'.bad = l.bad) → l'.start = l.start → l.pos ≤ l'.pos →
       l'.pos ≤ l.len → (b = true → l.pos < l'.pos) → Q (b, l')) :
     Sat (accept l valid) Q := by
   unfold accept
@@ -277,7 +320,7 @@ theorem accept_sat {l : Lexer} {valid : List Int} {Q : Bool × Lexer → Prop} (
       first | omega | (intro h; cases h)
 
 theorem acceptRun_sat {l : Lexer} {valid : List Int} {Q : Bool × Lexer → Prop} (h0 : 0 ≤ l.pos) (h1 : l.pos ≤ l.len)
-    (hq : ∀ b l', (l'.len = l.len ∧ l'.mp = l.mp ∧ l'.tagStart = l.tagStart) → l'.start = l.start → l.pos ≤ l'.pos →
+    (hq : ∀ b l', (l'.len = l.len ∧ l'.mp = l.mp ∧ l'.tagStart = l.tagStart ∧ l'.bad = l.bad) → l'.start = l.start → l.pos ≤ l'.pos →
       l'.pos ≤ l.len → (b = true → l.pos < l'.pos) → Q (b, l')) :
     Sat (acceptRun l valid) Q := by
   unfold acceptRun
@@ -292,7 +335,7 @@ theorem acceptRun_sat {l : Lexer} {valid : List Int} {Q : Bool × Lexer → Prop
   · simp only [backup_pos]; intro h; have h := of_decide_eq_true h; omega
 
 theorem skipSpace_sat {l : Lexer} {Q : Lexer → Prop} (h0 : 0 ≤ l.pos) (h1 : l.pos ≤ l.len)
-    (hq : ∀ l', (l'.len = l.len ∧ l'.mp = l.mp ∧ l'.tagStart = l.tagStart) → l'.start = l'.pos → l.pos ≤ l'.pos →
+    (hq : ∀ l', (l'.len = l.len ∧ l'.mp = l.mp ∧ l'.tagStart = l.tagStart ∧ l'.bad = l.bad) → l'.start = l'.pos → l.pos ≤ l'.pos →
       l'.pos ≤ l.len → Q l') :
     Sat (skipSpace l) Q := by
   unfold skipSpace
@@ -306,7 +349,7 @@ theorem skipSpace_sat {l : Lexer} {Q : Lexer → Prop} (h0 : 0 ≤ l.pos) (h1 : 
   · simp only [ignore_pos, backup_pos]; omega
 
 theorem badDoubleClose_sat {l : Lexer} {Q : Bool × Lexer → Prop} (h0 : 0 ≤ l.pos) (h1 : l.pos ≤ l.len)
-    (hq : ∀ b l', (l'.len = l.len ∧ l'.mp = l.mp ∧ l'.tagStart = l.tagStart) → l'.start = l.start → l.pos ≤ l'.pos →
+    (hq : ∀ b l', (l'.len = l.len ∧ l'.mp = l.mp ∧ l'.tagStart = l.tagStart ∧ l'.bad = l.bad) → l'.start = l.start → l.pos ≤ l'.pos →
       l'.pos ≤ l.len → Q (b, l')) :
     Sat (badDoubleClose l) Q := by
   unfold badDoubleClose
@@ -318,12 +361,12 @@ theorem badDoubleClose_sat {l : Lexer} {Q : Bool × Lexer → Prop} (h0 : 0 ≤ 
     apply Sat.ret
     apply hq _ l' hl hs <;> omega
   · apply Sat.ret
-    apply hq _ l ⟨rfl, rfl, rfl⟩ rfl <;> omega
+    apply hq _ l ⟨rfl, rfl, rfl, rfl⟩ rfl <;> omega
 
 /-- `maybeEmitText(l, k)` for `0 ≤ k`, on a lexer whose pending text `[start, pos-k)` is inside the input -/
 theorem maybeEmitText_sat {l : Lexer} {k : Int} {Q : Lexer → Prop}
     (hs0 : 0 ≤ l.start) (hk : 0 ≤ k) (hp : l.pos - k ≤ l.len)
-    (hq : ∀ l', (l'.len = l.len ∧ l.mp ≤ l'.mp ∧ ((l'.mp : Int) = l.mp ∨ (l'.mp : Int) = l.pos - k) ∧ l'.tagStart = l.tagStart) →
+    (hq : ∀ l', (l'.len = l.len ∧ l.mp ≤ l'.mp ∧ ((l'.mp : Int) = l.mp ∨ (l'.mp : Int) = l.pos - k) ∧ l'.tagStart = l.tagStart ∧ l'.bad = l.bad) →
       l'.pos = l.pos → l'.width = l.width →
       (l'.start = l.start ∨ (l.start < l.pos - k ∧ l'.start = l.pos - k)) → Q l') :
     Sat (maybeEmitText l k) Q := by
@@ -342,23 +385,23 @@ theorem maybeEmitText_sat {l : Lexer} {k : Int} {Q : Lexer → Prop}
         apply hq _ (by simp) (by simp only [addPos_pos, ignore_pos]; omega) (by simp)
         right; simp only [addPos_start, addPos_pos, ignore_start, ignore_pos]; omega
       · apply emit_sat (by simpa using hs0) (by simp only [addPos_pos, addPos_start]; omega)
-          (by simp only [addPos_pos, addPos_len]; simp only [Lexer.len]; omega)
+          (by simp only [addPos_pos, addPos_len]; simp only [Lexer.len]; omega) (emitOK_safe rfl rfl)
         intro l' hl hp' hs' hw
         simp only [addPos_pos, addPos_len, addPos_width] at hl hp' hs' hw
-        simp only [addPos_mp, addPos_tagStart] at hl
-        apply hq _ (by simp only [addPos_len, addPos_mp, addPos_tagStart]; omega) (by simp only [addPos_pos, hp']; omega) (by simp [hw])
+        simp only [addPos_mp, addPos_tagStart, addPos_bad] at hl
+        apply hq _ (by simp only [addPos_len, addPos_mp, addPos_tagStart, addPos_bad]; omega) (by simp only [addPos_pos, hp']; omega) (by simp [hw])
         right; simp only [addPos_start, hs']; omega
     obtain ⟨a, ha, hqa⟩ := key
     rw [ha]
     exact ⟨_, rfl, hqa⟩
   · apply Sat.ofSome
-    exact hq l ⟨rfl, Nat.le_refl _, Or.inl rfl, rfl⟩ rfl rfl (Or.inl rfl)
+    exact hq l ⟨rfl, Nat.le_refl _, Or.inl rfl, rfl, rfl⟩ rfl rfl (Or.inl rfl)
 
 /-! ## The invariant and the progress measure -/
 
 /-- invariant at state boundaries: the pending token `[start, pos)` lies inside the input -/
 def Good (n : Int) (l : Lexer) : Prop :=
-  (l.len = n ∧ (l.mp : Int) ≤ n ∧ 0 ≤ l.tagStart ∧ l.tagStart ≤ n) ∧ 0 ≤ l.start ∧ l.start ≤ l.pos ∧ l.pos ≤ n
+  (l.len = n ∧ (l.mp : Int) ≤ n ∧ 0 ≤ l.tagStart ∧ l.tagStart ≤ n ∧ l.bad = 0) ∧ 0 ≤ l.start ∧ l.start ≤ l.pos ∧ l.pos ≤ n
 
 /-- rank of a state while input remains (`pos < n`): states that may hand over to another
     state without consuming input rank above the states they hand over to -/
@@ -405,19 +448,21 @@ def EndsOK (l : Lexer) : Prop := ∃ it, l.items.back? = some it ∧ (it.typ = .
     state), the last item it sent is EOF or Error -/
 def Post (n : Int) (s : St) (l : Lexer) (res : Option St × Lexer) : Prop :=
   (∀ s', res.1 = some s' → Good n res.2 ∧ phi n s' res.2 < phi n s l) ∧
-  (res.1 = none → EndsOK res.2 ∧ (res.2.mp : Int) ≤ n)
+  (res.1 = none → EndsOK res.2 ∧ (res.2.mp : Int) ≤ n ∧ res.2.bad = 0)
 
-theorem errorf_sat {n : Int} {s : St} {l0 l : Lexer} (h : l.pos ≤ n ∧ (l.mp : Int) ≤ n) :
+theorem errorf_sat {n : Int} {s : St} {l0 l : Lexer} (h : l.pos ≤ n ∧ (l.mp : Int) ≤ n ∧ l.bad = 0) :
     Sat (errorf l) (Post n s l0) := by
-  refine ⟨_, rfl, fun _ h => absurd h (by simp), fun _ => ⟨⟨{ typ := .tError, pos := l.pos.toNat, val := [] }, by simp, Or.inr rfl⟩, ?_⟩⟩
-  simp only [mp_push']
-  omega
+  refine ⟨_, rfl, fun _ h => absurd h (by simp), fun _ => ⟨⟨{ typ := .tError, pos := l.pos.toNat, val := [] }, by simp, Or.inr rfl⟩, ?_, ?_⟩⟩
+  · simp only [mp_push']
+    omega
+  · rw [bad_push' _ _ (by simp [itemOK, sliced1, sliced2])]; exact h.2.2
 
-theorem errorfAt_sat {n : Int} {s : St} {l0 l : Lexer} {pos : Int} (h : pos ≤ n ∧ (l.mp : Int) ≤ n) :
+theorem errorfAt_sat {n : Int} {s : St} {l0 l : Lexer} {pos : Int} (h : pos ≤ n ∧ (l.mp : Int) ≤ n ∧ l.bad = 0) :
     Sat (errorfAt l pos) (Post n s l0) := by
-  refine ⟨_, rfl, fun _ h => absurd h (by simp), fun _ => ⟨⟨{ typ := .tError, pos := pos.toNat, val := [] }, by simp, Or.inr rfl⟩, ?_⟩⟩
-  simp only [mp_push']
-  omega
+  refine ⟨_, rfl, fun _ h => absurd h (by simp), fun _ => ⟨⟨{ typ := .tError, pos := pos.toNat, val := [] }, by simp, Or.inr rfl⟩, ?_, ?_⟩⟩
+  · simp only [mp_push']
+    omega
+  · rw [bad_push' _ _ (by simp [itemOK, sliced1, sliced2])]; exact h.2.2
 
 theorem emit_items {l l' : Lexer} {t : ItemType} (h : l.emit t = some l') :
     ∃ it, l'.items.back? = some it ∧ it.typ = t := by
@@ -441,11 +486,11 @@ macro "lx" : tactic => `(tactic|
   | omega
   | ((try simp only [backup_pos, backup_start, backup_width, backup_input, ignore_pos, ignore_start,
       ignore_width, ignore_input, addPos_pos, addPos_start, addPos_width, addPos_input, backup_items, ignore_items,
-      addPos_items, backup_tagStart, ignore_tagStart, addPos_tagStart, Lexer.len, Lexer.mp, eof] at *) <;>
+      addPos_items, backup_tagStart, ignore_tagStart, addPos_tagStart, Lexer.len, Lexer.mp, Lexer.bad, eof] at *) <;>
     omega))
 
 theorem Post.of {n : Int} {s s' : St} {l l' : Lexer}
-    (hn : l'.len = n ∧ (l'.mp : Int) ≤ n ∧ 0 ≤ l'.tagStart ∧ l'.tagStart ≤ n) (h0 : 0 ≤ l'.start)
+    (hn : l'.len = n ∧ (l'.mp : Int) ≤ n ∧ 0 ≤ l'.tagStart ∧ l'.tagStart ≤ n ∧ l'.bad = 0) (h0 : 0 ≤ l'.start)
     (h1 : l'.start ≤ l'.pos) (h2 : l'.pos ≤ n) (hle : l.pos ≤ l'.pos)
     (ha : l'.pos = l.pos → l.pos < n → rankA s' < rankA s)
     (hb : l'.pos = l.pos → ¬ l.pos < n → rankB s' < rankB s) :
@@ -459,9 +504,43 @@ theorem Post.of {n : Int} {s s' : St} {l l' : Lexer}
   · exact phi_lt_of_same h (ha h) (hb h)
   · exact phi_lt_of_adv (by simp only at h ⊢; omega) h2
 
-theorem Post.nil {n : Int} {s : St} {l l' : Lexer} (h : EndsOK l') (hm : (l'.mp : Int) ≤ n) :
+theorem Post.nil {n : Int} {s : St} {l l' : Lexer} (h : EndsOK l') (hm : (l'.mp : Int) ≤ n ∧ l'.bad = 0) :
     Post n s l (none, l') :=
-  ⟨fun _ h => absurd h (by simp), fun _ => ⟨h, hm⟩⟩
+  ⟨fun _ h => absurd h (by simp), fun _ => ⟨h, hm.1, hm.2⟩⟩
+
+theorem lookup_snd_mem {α : Type} [BEq α] (k : α) : ∀ (l : List (α × ItemType)) (v : ItemType),
+    l.lookup k = some v → v ∈ l.map (·.2) := by
+  intro l
+  induction l with
+  | nil => intro v h; simp [List.lookup] at h
+  | cons p r ih =>
+    intro v h
+    obtain ⟨k', v'⟩ := p
+    simp only [List.lookup] at h
+    split at h
+    · simp only [Option.some.injEq] at h; subst h; simp
+    · have := ih v h; simp only [List.map_cons, List.mem_cons]; exact Or.inr this
+
+theorem symbols_vals_safe : ∀ t ∈ Gen.symbols.map (·.2), sliced1 t = false ∧ sliced2 t = false := by decide
+theorem builtins_vals_safe : ∀ t ∈ Gen.builtinIdents.map (·.2), sliced1 t = false ∧ sliced2 t = false := by decide
+
+theorem symbols_lookup_ok {k : Bytes} {t : ItemType} {n : Int} (h : Gen.symbols.lookup k = some t) : emitOK t n := by
+  have := symbols_vals_safe t (lookup_snd_mem k _ t h)
+  exact emitOK_safe this.1 this.2
+
+theorem symbols_getD_ok (k : Bytes) (n : Int) : emitOK ((Gen.symbols.lookup k).getD .tInvalid) n := by
+  cases h : Gen.symbols.lookup k with
+  | none => exact emitOK_safe rfl rfl
+  | some t => exact symbols_lookup_ok h
+
+theorem builtins_lookup_ok {k : Bytes} {t : ItemType} {n : Int} (h : Gen.builtinIdents.lookup k = some t) : emitOK t n := by
+  have := builtins_vals_safe t (lookup_snd_mem k _ t h)
+  exact emitOK_safe this.1 this.2
+
+/-- the emitted token type is not one the parser slices, or long enough -/
+macro "eok" : tactic => `(tactic|
+  first | exact emitOK_safe rfl rfl | exact symbols_getD_ok _ _ | (apply symbols_lookup_ok; assumption)
+        | (apply builtins_lookup_ok; assumption) | assumption)
 
 /-- `let (r, l) ← l.next` -/
 macro "nx" r:ident l:ident hl:ident hs:ident hf:ident : tactic => `(tactic|
@@ -469,7 +548,8 @@ macro "nx" r:ident l:ident hl:ident hs:ident hf:ident : tactic => `(tactic|
 
 /-- `let l ← l.emit t` -/
 macro "em" l:ident hl:ident hp:ident hs:ident hw:ident : tactic => `(tactic|
-  (apply emit_sat (by lx) (by lx) (by lx); intro $l $hl $hp $hs $hw))
+  (apply emit_sat (by lx) (by lx) (by lx) (by eok);
+   intro $l $hl $hp $hs $hw))
 
 /-- `pure (some s', l')` at the end of a state function -/
 macro "fin" : tactic => `(tactic|
@@ -527,7 +607,8 @@ theorem stringsIndex_le (needle : Bytes) : ∀ (hay : Bytes) (i : Nat),
       omega
 
 theorem emitInside_sat {n : Int} {s : St} {l0 l : Lexer} {t : ItemType}
-    (hn : l.len = n ∧ (l.mp : Int) ≤ n ∧ 0 ≤ l.tagStart ∧ l.tagStart ≤ n) (h0 : 0 ≤ l.start) (h1 : l.start ≤ l.pos) (h2 : l.pos ≤ n) (hadv : l0.pos < l.pos) :
+    (hn : l.len = n ∧ (l.mp : Int) ≤ n ∧ 0 ≤ l.tagStart ∧ l.tagStart ≤ n ∧ l.bad = 0) (h0 : 0 ≤ l.start) (h1 : l.start ≤ l.pos) (h2 : l.pos ≤ n) (hadv : l0.pos < l.pos)
+    (hok : emitOK t (l.pos - l.start)) :
     Sat (emitInside l t) (Post n s l0) := by
   unfold emitInside
   apply Sat.bind
